@@ -182,7 +182,9 @@ func checkC33(p *Prog, r *Report) {
 	rule = "E5.visibility-grant-table"
 	{
 		visField := p.Field("core", "BuildTarget", "Visibility")
-		pkgName := func(v ssa.Value) bool { return strings.HasSuffix(fieldKeyOfLoad(v), "BuildLabel.PackageName") || tagsOf(v, SliceOpts{NoCallArgs: true})["core.BuildLabel.PackageName"] }
+		pkgName := func(v ssa.Value) bool {
+			return strings.HasSuffix(fieldKeyOfLoad(v), "BuildLabel.PackageName") || tagsOf(v, SliceOpts{NoCallArgs: true})["core.BuildLabel.PackageName"]
+		}
 		nTrue, bad := 0, 0
 		var site token.Pos
 		for _, rc := range returnCases(canSee, 0) {
